@@ -45,6 +45,16 @@ def so():
     return _c['so']
 
 
+def so_lazy():
+    """native library in which the stage bodies mj_fwdPosition / mj_fwdVelocity are real and everything they call is a logging stub"""
+    if 'solazy' not in _c:
+        cal = build.callees_of(TUS[0], ['mj_fwdPosition', 'mj_fwdVelocity', 'mj_forwardSkip'])
+        for k_ in ('mj_fwdPosition', 'mj_fwdVelocity', 'mj_forwardSkip', 'mju_message', 'snprintf', 'mj_flexCG', 'flex_has_passive_contact'): cal.pop(k_, None)
+        extra = build.logging_stubs_c(cal) + '_Bool vfstub_flex_has_passive_contact(const void* m) { return 0; }\n'
+        _c['solazy'] = build.native_lib(TUS, ['src/engine/engine_callback.c', 'src/engine/engine_util_errmem.c'], extra_c=extra, redirect=sorted(cal) + ['flex_has_passive_contact'], name='forward_lazy')
+    return _c['solazy']
+
+
 def lay():
     if 'l' not in _c: _c['l'] = build.Layout()
     return _c['l']
@@ -56,7 +66,7 @@ def K():
     return _c['k']
 
 
-def prepare(tier): mod(); so(); lay(); K()
+def prepare(tier): mod(); so(); so_lazy(); lay(); K()
 
 
 class Sys:
@@ -189,8 +199,37 @@ def unit_skip(tier, cb, skipsensor):
     return ck
 
 
+def unit_lazyflags(tier):
+    """lazily evaluated quantities are cached behind flags; every call that recomputes a stage must clear the flags of that stage,
+    also when earlier stages are skipped (otherwise mj_forwardSkip returns stale sensor values)"""
+    ck = Checker('lazyflags', tier, timeout_s=60)
+    k = K()
+    S = Sys(0)
+    fsv = S.D.sym('flg_subtreevel', 'flg_subtreevel')
+    S.M.set('nflex', 0); S.M.set('ntendon', 0); S.M.set('nout', 0); S.M.set('nflexedge', 0)
+    ex, st0 = S.exec()
+    ex.real_only = {'mj_forwardSkip', 'mj_forward', 'mj_fwdPosition', 'mj_fwdVelocity', 'mj_step1', 'mj_step2', 'mj_step'}
+    ex.stubs = {n: f for n, f in ex.stubs.items() if n not in ('mj_fwdPosition', 'mj_fwdVelocity')}
+    I = lambda v: z3.BitVecVal(v, 32)
+    dec = lambda mdl: {'flg_subtreevel': W.evalnum(mdl, fsv), 'flg_energypos': W.evalnum(mdl, S.fep), 'flg_energyvel': W.evalnum(mdl, S.fev), 'enableflags': hex(W.evalnum(mdl, S.en))}
+    energy_off = (S.en & k['mjENBL_ENERGY']) == 0
+    for name, args, expect in [('mj_forwardSkip(skip POS, no sensors)', [I(k['mjSTAGE_POS']), I(1)], ['flg_subtreevel', 'flg_energyvel']),
+                               ('mj_forwardSkip(full, no sensors)', [I(k['mjSTAGE_NONE']), I(1)], ['flg_subtreevel', 'flg_energyvel', 'flg_energypos'])]:
+        s1 = st0.clone(); s1.stack = []
+        for r in ex.run('@mj_forwardSkip', [S.w.P(S.M.o), S.w.P(S.D.o)] + args, s1):
+            if r.kind != 'return':
+                if r.kind not in ('infeasible', 'error'): ck.inconclusive.append('%s: %s %s' % (name, r.kind, r.info))
+                continue
+            nargs = [('ptr', (S.M.o, 0)), ('ptr', (S.D.o, 0)), ('i32', args[0]), ('i32', args[1])]
+            for f in expect:
+                rp = W.make_replay(so_lazy(), 'mj_forwardSkip', S.w, nargs, outputs=[S.D.out(ex, r.state, f)])
+                ck.prove('%s: %s is cleared (energy flag off, so nothing recomputes it)' % (name, f), r.state.pc + [energy_off], S.D.load(ex, r.state, f) == 0, site='mj_forwardSkip:lazy-flag-%s' % f, decode=dec, replay=rp)
+    ck.functions |= {f.lstrip('@') for f in ex.called}; ck.queries += ex.nq; ck.solver_s += ex.tq
+    return ck
+
+
 def units(tier):
-    u = []
+    u = [('lazyflags', 'unit_lazyflags', {})]
     for cb in (0, 1):
         u.append(('step_split_cb%d' % cb, 'unit_step', {'cb': cb}))
         for ss in (0, 1): u.append(('forwardSkip_cb%d_ss%d' % (cb, ss), 'unit_skip', {'cb': cb, 'skipsensor': ss}))
